@@ -211,6 +211,13 @@ def run_case(case, trace_lines=True):
             ds = ds.map(pull_fn).map(fn, num_workers=w, buffer_size=b, backend='t')
         if case.get('copy'):
             ds = ds.copy()  # a copy must behave like the original (all parameters preserved)
+        if case.get('profiled'):
+            # the whole pipeline under the profiling wrapper: worker threads bump the (unlocked) counters of the nodes
+            # below the prefetch; at source-line granularity every `+= 1` is one step, so the counts are exact for
+            # every owned schedule (C20 judges them against the event log)
+            from lazy_dataset.core import ProfilingDataset
+            ds = ProfilingDataset(ds)
+            make_iterable.prof = ds
         try:
             tr.len_reported = len(ds)
         except TypeError:
@@ -309,6 +316,14 @@ def run_case(case, trace_lines=True):
         sched.event('returned', None, yield_after=False)
         tr.unfinished_at_return = sched.unfinished()
         sched.quiesce()
+        if case.get('profiled'):
+            # counters of every profiling node, top down, read once nothing is in flight any more
+            tr.prof = []
+            node = getattr(make_iterable, 'prof', None)
+            while node is not None and hasattr(node, 'hit_count'):
+                inner = node.input_dataset
+                tr.prof.append((type(inner).__name__, list(node.hit_count)))
+                node = getattr(inner, 'input_dataset', None)
         sched.event('end-of-case', None, yield_after=False)
 
     with detsched.Patched(sched) as patched:
@@ -367,6 +382,47 @@ def judge_termination(tr):
         late = [(c, t, kind, p) for c, t, kind, p in tr.log if c > ret[0] and kind in ('pull', 'start', 'end')]
         if late:
             raise Violation(f'user-code-after-return|{tr.case["kind"]}', f'{describe(tr)}\nevents after return: {late}')
+
+
+def judge_profile(tr):
+    """C20 under owned schedules: at quiescence every profiling node reports exactly the fetches that went through it.
+
+    Independent counters: the event log ('pull' = one fetch reached the bottom map; it is emitted by the function of
+    the map directly above the source) and the exception objects the generated faults created."""
+    c = tr.case
+    if tr.construct_error is not None or not hasattr(tr, 'prof'):
+        return
+    if tr.outcome in ('deadlock', 'steplimit'):
+        return  # judged by judge_termination
+    pulls = sum(1 for _, _, kind, _ in tr.log if kind == 'pull')
+    nraised = {'src': 0, 'fn': 0}
+    for es in tr.raised.values():
+        for e in es:
+            if isinstance(e, Exception) and e.args and e.args[0] in nraised:
+                nraised[e.args[0]] += 1
+    names = [nm for nm, _ in tr.prof]
+    # the chain is  [ParMap | Prefetch] -> Map(fn) -> Map(pull) -> source   (pm has no separate Map(fn))
+    want = {}
+    surfaced = 1 if isinstance(tr.exc, Exception) else 0
+    want[0] = [len(tr.delivered) + (1 if tr.exc is not None else 0), surfaced]
+    # the chain is  [ParMap | Prefetch] -> Map(fn) -> Map(pull) -> (deserialising map ->) source; pm has no Map(fn)
+    if len(names) < (4 if c['kind'] == 'pf' else 3):
+        raise Violation('sched-count|chain', f'{describe(tr)}\nunexpected profiling chain {names}')
+    i = 1
+    if c['kind'] == 'pf':
+        want[i] = [pulls, nraised['src'] + nraised['fn']]
+        i += 1
+    want[i] = [pulls, nraised['src']]
+    for j in range(i + 1, len(names)):
+        want[j] = [pulls, 0]
+    for i, w_ in want.items():
+        got = tr.prof[i][1]
+        if got != w_:
+            role = 'root' if i == 0 else ('below-workers' if c['workers'] >= 2 and c['kind'] == 'pf' else 'below')
+            raise Violation(f'sched-count|{role}',
+                            f'{describe(tr)}\nprofiling node {i} (wraps {names[i]}) reports hit_count {got}; the event '
+                            f'log has {pulls} fetches through the bottom map, {nraised} raised, {len(tr.delivered)} '
+                            f'delivered, surfaced error {tr.exc!r}: expected {w_}\nall nodes: {tr.prof}')
 
 
 def judge_cancel(tr):
